@@ -11,7 +11,7 @@ from ..excflow import excflow
 from ..model import AnalysisError, FuncInfo, norm_src, walk_no_nested
 from ..pathq import fq
 from ..report import Ctx
-from ..symeval import Obj, Opaque, SymEval
+from ..symeval import BV, Obj, Opaque, SymEval
 from ..tables import compare_table
 
 WP = '_wcparse'
@@ -357,9 +357,9 @@ def _discharge_capture(ctx: Ctx) -> tuple[bool, str]:
     xb = repo.const(WP, '_EXTMATCHBASE')
     if repo.const('fnmatch', 'FLAG_MASK') & (mb | xb):
         return False, 'fnmatch.FLAG_MASK lets MATCHBASE through without PATHNAME'
-    wm_final = [s for s in walk_no_nested(repo.func('wcmatch', 'WcMatch._parse_flags').node) if isinstance(s, ast.Assign) and
-                norm_src(s) == 'self.flags = self.flags & (_wcparse.FLAG_MASK ^ MATCHBASE)']
-    if not wm_final:
+    from .common import api_table
+    _ev, pf = api_table(repo, 'wcmatch', 'WcMatch._parse_flags')
+    if not pf or not all(isinstance(p.attrs.get('flags'), BV) and p.attrs['flags'].must_clear(mb) for p in pf):
         return False, 'WcMatch._parse_flags no longer strips MATCHBASE from the user flags'
     return True, 'discharged: reads under globstar; assigned under pathname; globstar ⇒ pathname; MATCHBASE only with PATHNAME'
 
